@@ -26,11 +26,19 @@ HOSTILE_FOREIGN = ["%s", "100%d", "%(name)s", "percent%", "{0}", "{name}", "", "
 _USED = {}
 
 
-def call_index(unit, element, w, c, rules, same_id=None, foreign_name=None, used=False):
+def call_index(unit, element, w, c, rules, same_id=None, foreign_name=None, used=False, below=False):
     from metapype.eml import rule
     from metapype.model.node import Node
     from metapype.eml.exceptions import ChildNotAllowedError
     p = c01.realise(unit, element, w, rules, same_id=same_id, prefix="ns0" if same_id else None, unregister=bool(same_id))
+    if below and c != c01.FOREIGN:
+        # the parent's children are not bare: each carries a subtree in which the candidate's NAME occurs (grandchildren and
+        # below) - an insert position is a matter of the parent's own child list
+        for k, ch in enumerate(list(p.children)):
+            g = Node(c)
+            ch.add_child(g)
+            if k % 2:
+                g.add_child(Node(c))
     r = rule.get_rule(element) if element else rule.Rule(unit)
     earlier = None
     if used:
@@ -77,6 +85,8 @@ def w_insert(idx):
             # ... and by look-alikes of the names the rule does allow
             cases += [(c01.FOREIGN, [], "foreign:" + h) for a in sorted(x for x in names_sigma if not x.startswith("~"))[:2]
                       for h in ("{u}" + a, "x}" + a, "x:" + a, a + " ", a.capitalize(), a + "s") if h not in names_sigma]
+        if i % 3 == 2 and len(w) >= 1:
+            cases += [(c, acc, "below") for c, acc in accs.items()]
         if i % 3 == 1 and unit != "@metadata":
             cases += [(c, acc, "used-rule:" + ("collecting-last" if i % 2 else "fail-fast-last")) for c, acc in list(accs.items()) + [(c01.FOREIGN, [])]]
         for c, acc, same_id in cases:
@@ -86,9 +96,12 @@ def w_insert(idx):
             used = False
             if same_id and same_id.startswith("used-rule:"):
                 used, same_id = same_id[10:], None
-            kind, got = call_index(unit, el, w, c, rules, same_id, fname, used=used)
+            below = same_id == "below"
+            if below:
+                same_id = None
+            kind, got = call_index(unit, el, w, c, rules, same_id, fname, used=used, below=below)
             n += 1
-            replay = {"kind": "insert", "unit": unit, "element": el, "children": w, "candidate": c, "acceptable": acc, "children_constructed_with_id": same_id, "rule_object_used_before": used}
+            replay = {"kind": "insert", "unit": unit, "element": el, "children": w, "candidate": c, "acceptable": acc, "children_constructed_with_id": same_id, "rule_object_used_before": used, "children_carry_subtrees_with_the_candidate_name": below}
             unit_ = unit
             unit = unit + (":siblings-share-an-id" if same_id else "")
             if kind == "raised":
